@@ -184,9 +184,6 @@ m("c12_depth_order", "C12", MOD, """                    if depth == 0 {
                         $self.config_mut().trim_text_start = trim;
                         break start..end;
                     }""")
-m("c12_span_end_after_trim", "C12", MOD, """            $clear
-            let end = $self.buffer_position();""", """            $clear
-            let end = $self.buffer_position() + (trim && depth > 0) as u64;""")
 m("c12_forget_restore_eof", "C12", MOD, """                Ok(Event::Eof) => {
                     $self.config_mut().trim_text_start = trim;
                     return Err(Error::missed_end""", """                Ok(Event::Eof) => {
